@@ -58,6 +58,18 @@ def gen_cases(tier, seed):
     eap = bytes.fromhex(c12.frame(rng, 1, 0x008a, 20, 20).split()[2])
     structured.append(eap)
     structured.append(bytes([0xb4, 0]) + bytes(14))       # RTS
+    # hostile Key Data Length fields: declared lengths around and far above the 1024 cap against every amount actually present,
+    # plain and QoS, bare / behind radiotap / with FCS (a clamp skipped for ONE range of the declared value shows here)
+    n_hostile = 0
+    for declared in (1, 22, 1023, 1024, 1025, 1026, 2000, 0x7fff, 0x8000, 0xfffe, 0xffff):
+        for avail in (0, 1, 2, 21, 22, 23, 100, 1022, 1023, 1024, 1025, 1100):
+            for qos in (0, 1):
+                if q and (declared, avail, qos) != (declared, avail, (declared + avail) % 2) and declared < 1024:
+                    continue
+                fr = bytes.fromhex(c12.frame(rng, qos, rng.choice([0x008a, 0x010a, 0x13ca, 0x030a]), declared, avail).split()[2])
+                for mode in ((0, 1, 2) if not q else (rng.choice((0, 1, 2)),)):
+                    rt, buf = F.wrap(rng, fr, mode)
+                    cases += ["eapol %d %s" % (rt, hx(buf)), "classify %d %s" % (rt, hx(buf))]; n_hostile += 1
     for fr in structured:
         for mode in (0, 1, 2):
             rt, buf = F.wrap(rng, fr, mode)
@@ -116,7 +128,7 @@ def gen_cases(tier, seed):
     cases += ["iter " + hx(b) for b in wide["iter"]]
     for rt, buf in wide["mgmt"] + wide["classify"]:
         cases += ["classify %d %s" % (rt, hx(buf)), "mgmt %d %s" % (rt, hx(buf)), "eapol %d %s" % (rt, hx(buf))]
-    return cases, {"inputs_over_65535_bytes": len(wide["iter"]) + 3 * len(wide["mgmt"] + wide["classify"]), "small_exhaustive_cases": n_small, "structured_frames": len(structured), "element_cut_frames": n_elcut, "total": len(cases)}
+    return cases, {"inputs_over_65535_bytes": len(wide["iter"]) + 3 * len(wide["mgmt"] + wide["classify"]), "small_exhaustive_cases": n_small, "structured_frames": len(structured), "hostile_key_data_length_frames": n_hostile, "element_cut_frames": n_elcut, "total": len(cases)}
 
 
 def judge(case, impl, model, spec=None):
